@@ -3,7 +3,7 @@
     checker ([prop_event], i.e. [prop_case] minus the SQLite verdicts, which are observations
     about the real database and not derivable from the model). *)
 From V.Lib Require Import Base.
-From V.C18 Require Import Model Spec Corr Wf ProofsDead ProofsKernel ProofsLife ProofsDrive ProofsRebuild ProofsSeq ProofsStrand.
+From V.C18 Require Import Model Spec Store Corr Wf ProofsDead ProofsKernel ProofsLife ProofsDrive ProofsRebuild ProofsSeq ProofsStrand ProofsTerm ProofsStatus.
 From Coq Require Import ZifyBool.
 Local Open Scope Z_scope.
 
@@ -77,13 +77,40 @@ Proof.
   destruct e, e0; try discriminate; reflexivity.
 Qed.
 
+Lemma action_eqb_eq : forall a b, action_eqb a b = true <-> a = b.
+Proof. intros [] []; simpl; split; intros H; try discriminate; reflexivity. Qed.
+Lemma blocker_eqb_eq : forall a b, blocker_eqb a b = true <-> a = b.
+Proof. intros [] []; simpl; split; intros H; try discriminate; reflexivity. Qed.
+Lemma bool_eqb_eq : forall a b, Bool.eqb a b = true <-> a = b.
+Proof. intros [] []; simpl; split; intros H; try discriminate; reflexivity. Qed.
+Lemma txstatus_eqb_eq : forall a b, txstatus_eqb a b = true <-> a = b.
+Proof.
+  intros a b. split.
+  - intros H. unfold txstatus_eqb in H. destruct a, b; simpl in *.
+    repeat (apply andb_true_iff in H; destruct H as [H ?]).
+    repeat match goal with
+    | X : (_ =? _) = true |- _ => apply Z.eqb_eq in X
+    | X : Bool.eqb _ _ = true |- _ => apply bool_eqb_eq in X
+    | X : option_eqb action_eqb _ _ = true |- _ => apply (option_eqb_spec _ action_eqb_eq) in X
+    | X : option_eqb blocker_eqb _ _ = true |- _ => apply (option_eqb_spec _ blocker_eqb_eq) in X
+    | X : option_eqb ukind_eqb _ _ = true |- _ => apply (option_eqb_spec _ ukind_eqb_eq) in X
+    | X : oz_eqb _ _ = true |- _ => apply oz_eqb_eq in X
+    end. congruence.
+  - intros ->. unfold txstatus_eqb. rewrite Z.eqb_refl, (proj2 (bool_eqb_eq _ _) eq_refl).
+    rewrite (proj2 (option_eqb_spec _ action_eqb_eq _ _) eq_refl), (proj2 (option_eqb_spec _ blocker_eqb_eq _ _) eq_refl).
+    rewrite (proj2 (option_eqb_spec _ ukind_eqb_eq _ _) eq_refl). unfold oz_eqb.
+    rewrite (proj2 (option_eqb_spec Z.eqb Z.eqb_eq _ _) eq_refl). reflexivity.
+Qed.
+
 Lemma output_eqb_eq : forall a b, output_eqb a b = true -> a = b.
 Proof.
-  intros a b H. destruct a as [|x|st p|ra|], b as [|y|st' p'|rb|]; try (simpl in H; discriminate); try reflexivity;
+  intros a b H. destruct a as [|x|st p|ra|l e| |], b as [|y|st' p'|rb|l' e'| |]; try (simpl in H; discriminate); try reflexivity;
     try (destruct ra as [|[]|]; simpl in H; discriminate).
   - simpl in H. apply Bool.eqb_prop in H. congruence.
   - simpl in H. apply andb_true_iff in H. destruct H as [H1 H2]. apply step_eqb_eq in H1. apply Bool.eqb_prop in H2. congruence.
   - f_equal. apply rres_eq. exact H.
+  - simpl in H. apply andb_true_iff in H. destruct H as [H1 H2].
+    apply (list_eqb_spec _ txstatus_eqb_eq) in H1. apply lz_eqb_eq in H2. congruence.
 Qed.
 
 (* ---------------------------------------------------------------------------------------- *)
@@ -191,6 +218,7 @@ Definition gevent_of (s : mstate) (ev : event) : option gevent :=
   | ERecordSat sc est dets => Some (GRecordSat (mk_targets sc est) dets)
   | ERebuild id tip g c e sched anchor txid =>
     Some (GRebuild id (sat_add tip 1) g c e (sched - chain_base s (sat_add tip 1)) anchor txid)
+  | EStatuses _ _ => None
   | ECancel => Some GCancel
   | ESupersede => Some GSupersede
   | ERecompute => Some GRecompute
@@ -252,15 +280,58 @@ Proof.
   - subst dflt. discriminate.
 Qed.
 
-Theorem bridge_event : forall pre ev post out,
+Lemma forall2b'_map : forall A B (f : A -> B -> bool) (g : A -> B) l,
+  forall2b' f l (map g l) = forallb (fun a => f a (g a)) l.
+Proof. intros A B f g l. induction l as [|a l IH]; simpl; [reflexivity | rewrite IH; reflexivity]. Qed.
+
+Lemma tx_status_id : forall s tg dead t, ts_id (tx_status s tg dead t) = t_id t.
+Proof.
+  intros. unfold tx_status. destruct (row_unsatisfiable dead t); [reflexivity|].
+  destruct (negb (is_mined t) && is_some (t_fail t)); [reflexivity|].
+  destruct (is_expired t (tg_scanned tg)); [reflexivity|]. destruct (is_expired t (tg_eff tg)); [reflexivity|].
+  destruct (t_state t); try reflexivity; destruct (negb (deps_mined (m_txs s) (t_deps t))); try reflexivity;
+    [destruct (prove_ready s tg t); reflexivity | destruct (t_sched t <=? tg_eff tg); reflexivity].
+Qed.
+
+Lemma statuses_ok : forall s tg, NoDup (map t_id (m_txs s)) -> statuses_ok_b s tg (transaction_statuses s tg) = true.
+Proof.
+  intros s tg ND. unfold statuses_ok_b, transaction_statuses. rewrite forall2b'_map. apply forallb_forall. intros t I.
+  unfold status_row_ok. rewrite tx_status_id, Z.eqb_refl. simpl.
+  destruct (status_ready_action s tg (dead_set s tg) t) as [RA RB].
+  set (x := tx_status s tg (dead_set s tg) t) in *.
+  assert (E2 : Bool.eqb (ts_ready x) (is_some (ts_action x)) = true).
+  { destruct (ts_ready x) eqn:R.
+    - destruct (ts_action x); [reflexivity|]. exfalso. apply (proj1 RA eq_refl). reflexivity.
+    - destruct (ts_action x) eqn:A; [|reflexivity]. exfalso. assert (false = true) by (apply RA; discriminate). discriminate. }
+  rewrite E2. simpl.
+  assert (E3 : (if ts_ready x then negb (is_some (ts_blocked x)) else true) = true).
+  { destruct (ts_ready x); [|reflexivity]. rewrite (RB eq_refl). reflexivity. }
+  rewrite E3. simpl.
+  assert (E4 : (if is_mined t then negb (ts_ready x) && negb (is_some (ts_blocked x))
+                else ts_ready x || is_some (ts_blocked x) || txstate_eqb (t_state t) Bcast) = true).
+  { destruct (is_mined t) eqn:M.
+    - destruct (status_mined s tg (dead_set s tg) t M) as [A [_ C]]. fold x in A, C. rewrite A, C. reflexivity.
+    - destruct (status_never_silent s tg (dead_set s tg) t M) as [A|[A|A]]; fold x in A.
+      + rewrite A. reflexivity.
+      + destruct (ts_blocked x); [simpl; apply orb_true_r|congruence].
+      + rewrite A. simpl. apply orb_true_r. }
+  rewrite E4. simpl.
+  destruct (ts_action x) as [[|]|] eqn:A; try reflexivity.
+  apply offer_safe_b_ok. apply (status_ready_broadcast_kernel s tg t ND I) in A.
+  destruct (bcast_ok_safe s tg [] t I A) as [O _]. exact O.
+Qed.
+
+Theorem bridge_event : forall pre ev post out, NoDup (map t_id (m_txs pre)) ->
   match model_event pre ev with Some (s', o) => s' = post /\ o = out | None => False end ->
   prop_event pre ev post out = true.
 Proof.
-  intros pre ev post out H. destruct (model_event pre ev) as [[s' o]|] eqn:M; [|contradiction].
+  intros pre ev post out ND H. destruct (model_event pre ev) as [[s' o]|] eqn:M; [|contradiction].
   destruct H as [-> ->]. pose proof (model_event_gstep _ _ _ _ M) as G.
   unfold prop_event. destruct (gevent_of pre ev) as [g|] eqn:GE.
-  2:{ destruct ev; try discriminate. subst. simpl. rewrite (monotone_b_ok _ _ (monotone_refl _)).
-      unfold terminal_sticky_b. destruct (is_terminal_status _); [rewrite (proj2 (status_eqb_eq _ _) eq_refl)|]; reflexivity. }
+  2:{ assert (TS : terminal_sticky_b false post post = true)
+        by (unfold terminal_sticky_b; destruct (is_terminal_status _); [rewrite (proj2 (status_eqb_eq _ _) eq_refl)|]; reflexivity).
+      destruct ev; try discriminate; subst; simpl; rewrite (monotone_b_ok _ _ (monotone_refl _)), TS; simpl; [reflexivity|].
+      simpl in M. inversion M; subst. rewrite statuses_ok by exact ND. reflexivity. }
   pose proof (step_lifecycle _ _ _ G) as L. pose proof (terminal_sticky_b_ok _ _ _ G) as T.
   destruct ev; simpl in GE; inversion GE; subst; clear GE; simpl in L, T |- *;
     try (rewrite (monotone_b_ok _ _ L), T; simpl in M; inversion M; subst; reflexivity).
@@ -297,12 +368,21 @@ Proof.
     rewrite G' in RB. rewrite G', RB, T. reflexivity.
 Qed.
 
-(** [run_case] is the premise of [bridge_event] *)
+Lemma nodupb_NoDup : forall l, nodupb l = true -> NoDup l.
+Proof.
+  induction l as [|x l IH]; intros H; [constructor|]. simpl in H. apply andb_true_iff in H. destruct H as [H1 H2].
+  constructor; [|apply IH; exact H2]. intros I. apply mem_In in I. rewrite I in H1. discriminate.
+Qed.
+
+(** [run_case] is the premise of [bridge_event]; unique ids come from [wf_case] *)
 Theorem bridge : forall pre ev post out p,
+  wf_case (Case pre ev post out p) = true ->
   run_case (Case pre ev post out p) = true -> prop_event pre ev post out = true.
 Proof.
-  intros pre ev post out p H. apply bridge_event. unfold run_case in H.
-  destruct (model_event pre ev) as [[s' o]|]; [|discriminate].
-  apply andb_true_iff in H. destruct H as [H _]. apply andb_true_iff in H. destruct H as [H1 H2].
-  split; [apply mstate_eqb_eq; exact H1 | apply output_eqb_eq; exact H2].
+  intros pre ev post out p W H. apply bridge_event.
+  - unfold wf_case in W. apply andb_true_iff in W. destruct W as [W _]. apply andb_true_iff in W. destruct W as [W _].
+    unfold wf_state in W. repeat (apply andb_true_iff in W; destruct W as [W ?]). apply nodupb_NoDup. exact W.
+  - unfold run_case in H. destruct (model_event pre ev) as [[s' o]|]; [|discriminate].
+    apply andb_true_iff in H. destruct H as [H _]. apply andb_true_iff in H. destruct H as [H1 H2].
+    split; [apply mstate_eqb_eq; exact H1 | apply output_eqb_eq; exact H2].
 Qed.
